@@ -84,3 +84,36 @@ TEXT.update({
         "technique": _T + "; unconstrained addresses, recording bitmap, Kani panic checks",
     },
 })
+
+TEXT.update({
+    "C02": {
+        "level": "Every address-space query (find_region, to_region_addr, address_in_range, check_address, last_addr, num_regions, get_host_address, checked_offset, check_range, get_slice) on layouts of 1-2 (thorough 3) regions whose guest bases AND sizes are symbolic 64-bit values, with unconstrained query arguments, compared with an interval-set model; run on the real GuestMemoryMmap (binary search) and on a contract-level mock that uses only the provided default methods.",
+        "design_ref": "DESIGN.md §4 C02",
+        "note": "<= 3 regions; one lookup per solver query; host-pointer and get_slice queries bound region sizes by the backing pool; empty ranges at unmapped bases only checked for absence of panic",
+        "technique": _T + "; symbolic layouts (E6), differential against an interval-set model",
+    },
+    "C03": {
+        "level": "Assume/guarantee split: (L1) the crate's real try_access and blanket Bytes<GuestAddress> run over a contract-level mock GuestMemory with symbolic layouts (1-3 regions, 64-bit bases, sizes <= 4, buffers <= 6, any start address) against a flat sparse byte-array model - count, error variant, every byte of every region (symbolic index), dirty marks per owning region; (L2) the real GuestRegionMmap is shown to implement the region contract the mock stands for; (L3) the real find_region equals the interval lookup (C02).",
+        "design_ref": "DESIGN.md §3 E7, §4 C03",
+        "note": "the composition L1&L2&L3 is an argument, not a solver query; mock regions' buffer forms are a byte loop written in the harness crate; file-backed/Xen backing is the kernel's",
+        "technique": _T + "; assume/guarantee split with a contract-level mock, differential against a flat byte-array model",
+    },
+    "C10": {
+        "level": "One inductive step from an arbitrary valid map (1-3 regions, symbolic 64-bit bases and sizes): from_regions/from_arc_regions error variant iff model condition; insert_region Ok iff no byte overlaps (one-byte overlap, duplicate start, exact adjacency all reachable), new map = old + region with pointer identity of the inserted handle; remove_region Ok iff exact (start,size) match, returns the very same region object; old map's answers unchanged; region creation refused iff base+size overflows.",
+        "design_ref": "DESIGN.md §4 C10",
+        "note": "std's stable_sort and Vec::remove replaced by small models (environment); one question per query; maps <= 3 regions; 2-region inserts in the thorough tier",
+        "technique": _T + "; symbolic layouts, one step + one question per query, std sort/remove models",
+    },
+    "C12": {
+        "level": "mmap/munmap are models with a ghost table; (i) drop of an owned region at symbolic (address,size) issues exactly one munmap of exactly that mapping, an external raw-pointer region none; (ii) histories build/clone/insert/remove over two owned regions with every drop order: after each drop the set of live mappings equals the reachability model, at the end every mapping was released exactly once and munmap never saw an unknown (base,len).",
+        "design_ref": "DESIGN.md §4 C12",
+        "note": "the 'programs' (must-not-compile) half is the borrow checker's and is not claimed; histories with >= 3 live maps outside the bound; from_arc_regions used inside histories",
+        "technique": _T + "; libc models with ghost mapping table (-Z c-ffi), one drop order per query",
+    },
+    "C15": {
+        "level": "All request parameters unconstrained (size, prot, flags, file offset, file length, raw pointer, guest base; mmap and lseek may fail): Err variant iff the model predicate (MapFixed, InvalidOffsetLength, SeekEnd, MappingPastEof, InvalidPointer, Mmap, InvalidGuestRegion), nothing left mapped on any error (including the path where mmap succeeded and the guest range check failed later), on success the getters return the request and the mmap model saw exactly (size, prot, flags, fd, offset).",
+        "design_ref": "DESIGN.md §4 C15",
+        "note": "file/kernel coherence is outside; Xen flag validation is added by the xen harness crate",
+        "technique": _T + "; unconstrained request parameters, libc models record the kernel requests",
+    },
+})
